@@ -1,10 +1,34 @@
 /-
-  Bounding boxes (C18), volumes (C10) of domain expressions — import-free, executable.
-  Mirrors `bounding_box` / `_get_volume` / `volume` of src/torchphysics/problem/domains.
+  Bounding boxes of domain expressions (C18) — import-free, executable.
+  Mirrors `bounding_box` of src/torchphysics/problem/domains (primitives, Boolean operations, products,
+  Translate / Rotate) and the arithmetic of its two consumers: `LHSSampler._create_lhs_in_bounding_box`
+  (the normalisation layer is modelled in TPV/Model/Net.lean: `normCoord`, `normRow`).
+
+  Conventions (see Geom.lean): one box is a list of `(min, max)` per axis in space order
+  (`[x_min, x_max, y_min, y_max, …]` in the code); `ρs` are the supplied parameter rows — never
+  empty, the parameter-free call is `[[]]` — ; rejected input is `none`.
+
+  As in the code
+  * primitives take the extreme values over *all* supplied rows (`torch.min` / `torch.max` over the
+    row axis); disc and ball combine every centre with every radius (`center[:, i] - radius`
+    broadcasts a (k,) against a (k,1) tensor), i.e. `min centre − max radius`, `max centre + max radius`;
+  * union = axis-wise hull, intersection = axis-wise (max of the minima, min of the maxima), cut = the
+    box of the first operand, product = concatenation;
+  * `Translate` / `Rotate` evaluate the motion per parameter row and return ONE BOX PER ROW when the
+    motion depends on parameters (the argument `ρ` of `bbox` selects that row; every other node
+    ignores it).  The inner box is still the box over all rows.
 -/
 import TPV.Model.Geom
 
 namespace TPV.Geom
+
+/-- `mapM` for `Option`, written out (all results or `none`) -/
+def mapOpt {α β : Type} (f : α → Option β) : List α → Option (List β)
+  | [] => some []
+  | a :: as =>
+    match f a, mapOpt f as with
+    | some b, some bs => some (b :: bs)
+    | _, _ => none
 
 section box
 variable {K : Type} [Add K] [Sub K] [Mul K] [Div K] [Neg K] [LE K] [DecidableLE K] [OfNat K 0] [OfNat K 1]
@@ -17,104 +41,158 @@ def maxL : List K → Option K
   | [] => none
   | x :: xs => some (xs.foldl maxK x)
 
-/-- evaluate a parameter at every row; all rows must yield vectors of length `n` -/
-def evalRows (p : PFun K) (ρs : List (Env K)) (n : Nat) : Option (List (List K)) :=
-  ρs.mapM fun ρ => let r := p.f ρ; if r.length = n then some r else none
+/-- (smallest, largest) entry -/
+def span (l : List K) : Option (K × K) :=
+  match minL l, maxL l with
+  | some a, some b => some (a, b)
+  | _, _ => none
 
-/-- axis-wise hull of a list of points (each of dimension `n`) -/
-def hull (n : Nat) (ptsL : List (List K)) : Option (List (K × K)) :=
-  (List.range n).mapM fun i => do
-    let col ← ptsL.mapM (·[i]?)
-    let lo ← minL col
-    let hi ← maxL col
-    pure (lo, hi)
+/-- a parameter evaluated at one row, as a scalar / 2-vector / 3-vector (anything else: rejected) -/
+def eval1 (p : PFun K) (ρ : Env K) : Option K :=
+  match p.f ρ with | [a] => some a | _ => none
+def eval2 (p : PFun K) (ρ : Env K) : Option (K × K) :=
+  match p.f ρ with | [a, b] => some (a, b) | _ => none
+def eval3 (p : PFun K) (ρ : Env K) : Option (K × K × K) :=
+  match p.f ρ with | [a, b, c] => some (a, b, c) | _ => none
 
-def vadd (a b : List K) : List K := List.zipWith (· + ·) a b
-def vsub (a b : List K) : List K := List.zipWith (· - ·) a b
+/-- axis-wise extreme coordinates of a list of planar points -/
+def box2 (l : List (K × K)) : Option (List (K × K)) :=
+  match span (l.map (·.1)), span (l.map (·.2)) with
+  | some sx, some sy => some [sx, sy]
+  | _, _ => none
 
-/-- all `2^d` corners of a box -/
-def corners : List (K × K) → List (List K)
-  | [] => [[]]
-  | (lo, hi) :: rest => (corners rest).flatMap fun c => [lo :: c, hi :: c]
+/-- the four corners of `Parallelogram(origin, corner_1, corner_2)` at one row
+    (`corner_3 = corner_1 + corner_2 - origin`) -/
+def parCorners (o c1 c2 : PFun K) (ρ : Env K) : Option (List (K × K)) :=
+  match eval2 o ρ, eval2 c1 ρ, eval2 c2 ρ with
+  | some (ox, oy), some (ax, ay), some (bx, cy) => some [(ox, oy), (ax, ay), (bx, cy), (ax + bx - ox, ay + cy - oy)]
+  | _, _, _ => none
 
-/-- `bounding_box(params)` for the rows `ρs` (never empty: the parameter-free call is `[[]]`).
-    For motion nodes the code returns one box per row; `ρ` selects that row (it is ignored by
-    every other node). -/
+def triCorners (o c1 c2 : PFun K) (ρ : Env K) : Option (List (K × K)) :=
+  match eval2 o ρ, eval2 c1 ρ, eval2 c2 ρ with
+  | some o', some a, some b => some [o', a, b]
+  | _, _, _ => none
+
+/-- image of a point under `q ↦ M (q − c) + c` -/
+def rotPt (m00 m01 m10 m11 cx cy x y : K) : K × K :=
+  (m00 * (x - cx) + m01 * (y - cy) + cx, m10 * (x - cx) + m11 * (y - cy) + cy)
+
+/-- `Rotate.bounding_box` on an inner box: all four corners are rotated about `c`
+    (order of `itertools.product([min, max], repeat=2)`), extreme coordinates of the images -/
+def bboxRotate (bd : List (K × K)) (m c : List K) : Option (List (K × K)) :=
+  match m, c, bd with
+  | [m00, m01, m10, m11], [cx, cy], [(x0, x1), (y0, y1)] =>
+    let r := rotPt m00 m01 m10 m11 cx cy
+    box2 [r x0 y0, r x0 y1, r x1 y0, r x1 y1]
+  | _, _, _ => none
+
+/-- `Translate.bounding_box` on an inner box: minimum and maximum of axis `i` are shifted by `t[i]` -/
+def bboxTranslate (bd : List (K × K)) (t : List K) : Option (List (K × K)) :=
+  if t.length = bd.length then some (List.zipWith (fun b s => (b.1 + s, b.2 + s)) bd t) else none
+
+/-- **`bounding_box(params)`** for the rows `ρs`; for motion nodes: the box returned for row `ρ`. -/
 def bbox : Dom K → List (Env K) → Env K → Option (List (K × K))
-  | .interval _ lb ub, ρs, _ => do
-    let ls ← evalRows lb ρs 1
-    let us ← evalRows ub ρs 1
-    let lo ← minL ls.flatten
-    let hi ← maxL us.flatten
-    pure [(lo, hi)]
-  | .par _ o c1 c2, ρs, _ => do
-    let os ← evalRows o ρs 2
-    let as ← evalRows c1 ρs 2
-    let bs ← evalRows c2 ρs 2
-    let c3 := List.zipWith vsub (List.zipWith vadd as bs) os
-    hull 2 (os ++ as ++ bs ++ c3)
-  | .tri _ o c1 c2, ρs, _ => do
-    let os ← evalRows o ρs 2
-    let as ← evalRows c1 ρs 2
-    let bs ← evalRows c2 ρs 2
-    hull 2 (os ++ as ++ bs)
-  | .circle _ c r, ρs, _ => do
-    let cs ← evalRows c ρs 2
-    let rs ← evalRows r ρs 1
-    let lo := List.zipWith (fun c r => c.map (· - r.headD 0)) cs rs
-    let hi := List.zipWith (fun c r => c.map (· + r.headD 0)) cs rs
-    let l ← hull 2 lo
-    let h ← hull 2 hi
-    pure (List.zipWith (fun a b => (a.1, b.2)) l h)
-  | .sphere _ c r, ρs, _ => do
-    let cs ← evalRows c ρs 3
-    let rs ← evalRows r ρs 1
-    let lo := List.zipWith (fun c r => c.map (· - r.headD 0)) cs rs
-    let hi := List.zipWith (fun c r => c.map (· + r.headD 0)) cs rs
-    let l ← hull 3 lo
-    let h ← hull 3 hi
-    pure (List.zipWith (fun a b => (a.1, b.2)) l h)
-  | .union a b, ρs, ρ => do
-    let ba ← bbox a ρs ρ
-    let bb ← bbox b ρs ρ
-    if ba.length = bb.length then pure (List.zipWith (fun x y => (minK x.1 y.1, maxK x.2 y.2)) ba bb) else none
-  | .inter a b, ρs, ρ => do
-    let ba ← bbox a ρs ρ
-    let bb ← bbox b ρs ρ
-    if ba.length = bb.length then pure (List.zipWith (fun x y => (maxK x.1 y.1, minK x.2 y.2)) ba bb) else none
+  | .interval _ lb ub, ρs, _ =>
+    match mapOpt (eval1 lb) ρs, mapOpt (eval1 ub) ρs with
+    | some ls, some us =>
+      match minL ls, maxL us with
+      | some lo, some hi => some [(lo, hi)]
+      | _, _ => none
+    | _, _ => none
+  | .par _ o c1 c2, ρs, _ =>
+    match mapOpt (parCorners o c1 c2) ρs with
+    | some cs => box2 cs.flatten
+    | none => none
+  | .tri _ o c1 c2, ρs, _ =>
+    match mapOpt (triCorners o c1 c2) ρs with
+    | some cs => box2 cs.flatten
+    | none => none
+  | .circle _ c r, ρs, _ =>
+    match mapOpt (eval2 c) ρs, mapOpt (eval1 r) ρs with
+    | some cs, some rs =>
+      match span (cs.map (·.1)), span (cs.map (·.2)), maxL rs with
+      | some (x0, x1), some (y0, y1), some rm => some [(x0 - rm, x1 + rm), (y0 - rm, y1 + rm)]
+      | _, _, _ => none
+    | _, _ => none
+  | .sphere _ c r, ρs, _ =>
+    match mapOpt (eval3 c) ρs, mapOpt (eval1 r) ρs with
+    | some cs, some rs =>
+      match span (cs.map (·.1)), span (cs.map (·.2.1)), span (cs.map (·.2.2)), maxL rs with
+      | some (x0, x1), some (y0, y1), some (z0, z1), some rm =>
+        some [(x0 - rm, x1 + rm), (y0 - rm, y1 + rm), (z0 - rm, z1 + rm)]
+      | _, _, _, _ => none
+    | _, _ => none
+  | .union a b, ρs, ρ =>
+    match bbox a ρs ρ, bbox b ρs ρ with
+    | some ba, some bb =>
+      if ba.length = bb.length then some (List.zipWith (fun x y => (minK x.1 y.1, maxK x.2 y.2)) ba bb) else none
+    | _, _ => none
+  | .inter a b, ρs, ρ =>
+    match bbox a ρs ρ, bbox b ρs ρ with
+    | some ba, some bb =>
+      if ba.length = bb.length then some (List.zipWith (fun x y => (maxK x.1 y.1, minK x.2 y.2)) ba bb) else none
+    | _, _ => none
   | .cut a _, ρs, ρ => bbox a ρs ρ
-  | .prod a b, ρs, ρ => do
+  | .prod a b, ρs, ρ =>
     -- constant product, or the partner's coordinates are supplied with the parameters
-    let ba ← bbox a ρs ρ
-    let bb ← bbox b ρs ρ
-    pure (ba ++ bb)
-  | .translate _ d t, ρs, ρ => do
-    let bd ← bbox d ρs ρ
-    let tv := t.f ρ
-    if tv.length = bd.length then pure (List.zipWith (fun b s => (b.1 + s, b.2 + s)) bd tv) else none
-  | .rotate _ d m c, ρs, ρ => do
-    let bd ← bbox d ρs ρ
-    match m.f ρ, c.f ρ, bd with
-    | [m00, m01, m10, m11], [cx, cy], [_, _] =>
-      -- every corner of the inner box is rotated about `c`
-      let rot := (corners bd).map fun p =>
-        match p with
-        | [x, y] => [m00 * (x - cx) + m01 * (y - cy) + cx, m10 * (x - cx) + m11 * (y - cy) + cy]
-        | _ => []
-      hull 2 rot
-    | _, _, _ => none
+    match bbox a ρs ρ, bbox b ρs ρ with
+    | some ba, some bb => some (ba ++ bb)
+    | _, _ => none
+  | .translate _ d t, ρs, ρ =>
+    match bbox d ρs ρ with
+    | some bd => bboxTranslate bd (t.f ρ)
+    | none => none
+  | .rotate _ d m c, ρs, ρ =>
+    match bbox d ρs ρ with
+    | some bd => bboxRotate bd (m.f ρ) (c.f ρ)
+    | none => none
   | .bdry d, ρs, ρ | .bdryL d, ρs, ρ | .bdryR d, ρs, ρ => bbox d ρs ρ
 
-/-- the box of the pinned snapshot for rotations: only the (min,min) and (max,max) corners are rotated -/
+/-- `Rotate.bounding_box` of the pinned snapshot: only the corners (min, min) and (max, max) are
+    rotated (kept for the negative result `rotate_old_not_enclosing`) -/
 def bboxRotateOld (bd : List (K × K)) (m c : List K) : Option (List (K × K)) :=
   match m, c, bd with
   | [m00, m01, m10, m11], [cx, cy], [(x0, x1), (y0, y1)] =>
-    let a := [m00 * (x0 - cx) + m01 * (y0 - cy), m10 * (x0 - cx) + m11 * (y0 - cy)]
-    let b := [m00 * (x1 - cx) + m01 * (y1 - cy), m10 * (x1 - cx) + m11 * (y1 - cy)]
-    match a, b with
-    | [ax, ay], [bx, cy'] => some [(minK ax bx + cx, maxK ax bx + cx), (minK ay cy' + cy, maxK ay cy' + cy)]
-    | _, _ => none
+    let r := rotPt m00 m01 m10 m11 cx cy
+    box2 [r x0 y0, r x1 y1]
   | _, _, _ => none
+
+/-! ### shape of the result for several parameter rows -/
+
+/-- does some motion of the expression depend on parameters?  Then `bounding_box` of that node
+    returns one box per row when called with two or more rows. -/
+def Dom.perRow : Dom K → Bool
+  | .interval .. | .par .. | .tri .. | .circle .. | .sphere .. => false
+  | .union a b | .inter a b | .prod a b => a.perRow || b.perRow
+  | .cut a _ => a.perRow
+  | .translate _ d t => !t.args.isEmpty || d.perRow
+  | .rotate _ d m c => !m.args.isEmpty || !c.args.isEmpty || d.perRow
+  | .bdry d | .bdryL d | .bdryR d => d.perRow
+
+/-- is a per-row operand combined by union / intersection / product?  These index their operands'
+    boxes as flat vectors; with two or more rows the call raises. -/
+def Dom.rowsClash : Dom K → Bool
+  | .interval .. | .par .. | .tri .. | .circle .. | .sphere .. => false
+  | .union a b | .inter a b | .prod a b => a.perRow || b.perRow || a.rowsClash || b.rowsClash
+  | .cut a _ => a.rowsClash
+  | .translate _ d _ | .rotate _ d _ _ => d.rowsClash
+  | .bdry d | .bdryL d | .bdryR d => d.rowsClash
+
+/-- the whole call `D.bounding_box(params)`: `inl box` = flat result, `inr boxes` = one box per row;
+    `none` = rejected -/
+def bboxCall (D : Dom K) (ρs : List (Env K)) : Option (List (K × K) ⊕ List (List (K × K))) :=
+  match ρs with
+  | [] => none
+  | ρ :: rest =>
+    if rest.isEmpty || !D.perRow then (bbox D ρs ρ).map .inl
+    else if D.rowsClash then none
+    else (mapOpt (bbox D ρs) ρs).map .inr
+
+/-! ### consumers -/
+
+/-- `LHSSampler._create_lhs_in_bounding_box`, one axis, stratum `j` of `n`, random number `u`:
+    `linspace(lo, hi, n+1)[j] + (hi − lo)/n · u` -/
+def lhsCoord (lo hi : K) (n j u : K) : K := lo + (hi - lo) / n * j + (hi - lo) / n * u
 
 end box
 
